@@ -209,19 +209,20 @@ def work_e2e(p):
         sd = os.path.join(d, spec["name"])
         os.makedirs(sd)
         nmods = rng.choice([1, 2])
+        mode = spec["mode"]
         mods = []
         called = set()
         all_funcs = []
         for mi in range(nmods):
             mname = f"vfuser{mi}_{spec['name']}"
             fnames = [f"uf{mi}_{j}" for j in range(rng.choice([2, 3, 4]))]
-            body = ["import textwrap", "import json", ""]
+            body = ["import textwrap", "import json", "", "def twin(a):  # identical in every module (same line, same code)", "    return a", ""]
             for fn in fnames:
                 body += [f"def {fn}(a):", "    return textwrap.dedent(' x') + json.dumps(a)", ""]
             body += ["class UK:", "    def um(self, a):", f"        return (a, {mname!r})", ""]
             open(os.path.join(sd, mname + ".py"), "w").write("\n".join(body))
             mods.append((mname, fnames))
-            all_funcs += [(mname, fn) for fn in fnames] + [(mname, "UK.um")]
+            all_funcs += [(mname, fn) for fn in fnames] + [(mname, "UK.um"), (mname, "twin")]
         script = [f"import {m}" for m, _ in mods] + ["import textwrap", "", "def main_helper(a):", "    return a", "", "class MainK:", "    def mm(self, a):", "        return a", ""]
         for m, fns in mods:
             for fn in fns:
@@ -231,6 +232,9 @@ def work_e2e(p):
             if rng.random() < 0.7:
                 script.append(f"{m}.UK().um('s')")
                 called.add((m, "UK.um"))
+            if mode != "allow":  # (with the default filter's cache, an allow-list covering one twin only is the listed finding)
+                script.append(f"{m}.twin({len(called)})")
+                called.add((m, "twin"))
         script += ["main_helper(1)", "MainK().mm(2)", "textwrap.dedent(' y')", "import json; json.dumps({'a': 1})", ""]
         open(os.path.join(sd, "script.py"), "w").write("\n".join(script))
         mode = spec["mode"]
